@@ -32,7 +32,7 @@ CHARSETS = {
 }
 NAMES = ["Alice Sender", "Bob", "", "Müller, Jörg", "Ünal Özgür", "Иван Петров", "山田 太郎", "O'Brien, \"Q\"", "A" * 60 + " Long Name", "😀 Emoji Person"]
 SUBJECTS = ["Quarterly report", "Re: [list] update", "Grüße aus München", "Отчёт за квартал", "会議の議事録", "€ 100 — “deal” 😀", "A fairly long subject line with many ordinary words so that the generator has to fold it somewhere in the middle of the header, twice if needed",
-            "Subject with  two  spaces", "100% =?not an encoded word?= literal", "tab\there"]
+            "Subject with  two  spaces", "100% =?not an encoded word?= literal", "tab\there", "Budget by region,\tfiscal year 2024", "Minutes of the meeting held on  2 January 2024"]
 
 
 def build_message(m):
@@ -48,7 +48,10 @@ def build_message(m):
     # address headers are written by hand (see eml_bytes): the stdlib's refolding of address lists with encoded display names
     # can move the separating comma into the next name's encoded word, which is not what the model says
     msg["X-VF-Addresses"] = "placeholder"
-    msg["Subject"] = m["subject"]
+    if m.get("fold_subject") and _fold_point(m["subject"]):
+        msg["X-VF-Subject"] = "placeholder"        # written by hand in _serialise: folded in front of a tab / a run of two spaces
+    else:
+        msg["Subject"] = m["subject"]
     tz = datetime.timezone(datetime.timedelta(minutes=m["date"]["tz"]))
     msg["Date"] = datetime.datetime.fromtimestamp(m["date"]["ts"], tz)
     msg["Message-ID"] = m["message_id"]
@@ -97,9 +100,22 @@ def address_headers(m, linesep):
     return linesep.join(out)
 
 
+def _fold_point(subject: str):
+    """index of white space (a tab, or the first of two spaces) in an ASCII subject at which a writer may fold: unfolding removes only the line break"""
+    if not subject.isascii():
+        return None
+    for i in range(1, len(subject) - 1):
+        if subject[i] == "\t" or subject[i:i + 2] == "  ":
+            return i
+    return None
+
+
 def _serialise(m, linesep):
     from email import policy
     raw = build_message(m).as_bytes(policy=policy.SMTP.clone(linesep=linesep))
+    if m.get("fold_subject") and _fold_point(m["subject"]):
+        i = _fold_point(m["subject"])
+        raw = raw.replace(b"X-VF-Subject: placeholder", ("Subject: " + m["subject"][:i] + linesep + m["subject"][i:]).encode("ascii"), 1)
     return raw.replace(b"X-VF-Addresses: placeholder", address_headers(m, linesep).encode("ascii"), 1)
 
 
@@ -340,6 +356,7 @@ def messages(draw, idx=0):
         "message_id": f"<vf-{draw(st.integers(1, 10**9))}-{idx}@mail.example.org>", "in_reply_to": draw(st.sampled_from([None, "<parent-1@example.org>"])),
         "plain": plain, "html": html, "structure": structure, "attachments": atts,
         # the sender of the mbox separator line need not be an address: MAILER-DAEMON (what mailbox.mbox writes), "-" (Thunderbird), a bare user name
+        "fold_subject": draw(st.booleans()),
         "envelope": draw(st.sampled_from(["sender@example.org", "sender@example.org", "MAILER-DAEMON", "-", "nobody", "root"])),
     }
 
